@@ -158,7 +158,7 @@ def replay_spec(facts, r, samples):
 OP_SAMPLES = {
     "BinOp": ["views add likes eq 2", "views sub likes gt 0", "views mul likes le 2", "views mod likes eq 1", "views sub (likes sub 1) eq 0"],
     "Compare": ["views eq 1", "views ne likes", "views lt likes", "views le 0", "views gt likes", "views ge likes", "views eq null", "views ne null",
-                "views in (1, 2)", "title in ('a', 'ab')"],
+                "views in (1, 2)", "title in ('a', 'ab')", "views add 1 ne 2", "views mul 2 ne 4", "not (views add 1 ne 2)", "2 ne views add 1"],
     "BoolOp": ["views eq 1 and likes eq 1", "views eq 1 or likes eq 1", "views eq 1 or likes eq 1 and public eq true"],
     "UnaryOp": ["not (views eq 1)", "not (views eq 1 and likes eq 1)"],
 }
